@@ -538,6 +538,7 @@ def run_spec(spec: dict, seed: int, replay_actions: list[int] | None = None, max
             run.trace.outcome = ("deadlock", None)
     finally:
         _ACTIVE.pop()
+    run.trace.remaining_externals = list(run.externals)  # type: ignore[attr-defined]
     return run.trace
 
 
